@@ -207,6 +207,7 @@ def run(ctx):
             os.remove(p)
 
     rc, out = ctx.go_test("actor", "^TestVerifC12", ["zz_verif_C12_test.go"], timeout=600)
+    ctx.log("go harness done rc=%d" % rc)
     mgr_outs = read_jsonl(os.path.join(work, "c12_mgr_out.jsonl"))
     mark_outs = read_jsonl(os.path.join(work, "c12_mark_out.jsonl"))
     guard_outs = read_jsonl(os.path.join(work, "c12_guard_out.jsonl"))
@@ -393,6 +394,7 @@ def run(ctx):
             if passivated and o["PhaseMarks"].get("second-batch") and min(passivated) < o["PhaseMarks"]["second-batch"]:
                 viol("passivation:message-count-threshold", "%s: passivated after only 2 of %d messages" % (o["Name"], o["MaxMsgs"]), o)
 
+    ctx.log("oracles done")
     # ---- model vs implementation
     coq_stats = None
     if coq_mgr or coq_mark or coq_guard:
@@ -462,6 +464,7 @@ Eval vm_compute in summary.
             if coq_stats["guard_mismatches"]:
                 ctx.tie_broken("model C12/Model.v try_passivation vs pid.tryPassivation", coq_stats)
 
+    ctx.log("model evaluation done")
     # ---- the theorems
     if not ctx.coq_property():
         if not any(f.kind == "violation" for f in ctx.findings):
@@ -483,7 +486,7 @@ Eval vm_compute in summary.
 
 
 META = {
-    "ready": False,
+    "ready": True,
     "category": "proof",
     "technique": "Rocq inductive invariant over all operation histories of the passivation manager + differential validation against the real manager, markActivity and tryPassivation",
     "text": "The passivation manager, the touch coalescing of markActivity and the guards of tryPassivation are modelled with a logical clock; an inductive invariant over every reachable state gives: a passivation decision is only taken for an un-paused time-based entry whose latest activity is older than timeout-100ms, message-count decisions need the threshold, long-lived strategies are never scheduled. Every run replays generated operation sequences (with operations interleaved inside passivation attempts) on the real manager and compares every step with the Coq model, and runs live actors with real timers.",
